@@ -97,6 +97,25 @@ def ec_add(d, p, q):
     return show_pt(P + Q)
 
 
+@op("ec.neg")
+@guard
+def ec_neg(d, p):
+    fp = domain(d)[0]
+    P = parse_pt(fp, p)
+    return "ok inf" if P is INFINITY else show_pt(-P)
+
+
+@op("ec.negadd")
+@guard
+def ec_negadd(d, p, q):
+    fp = domain(d)[0]
+    P, Q = parse_pt(fp, p), parse_pt(fp, q)
+    N = INFINITY if P is INFINITY else -P
+    if N is INFINITY:
+        return show_pt(Q) if Q is not INFINITY else "ok inf"
+    return show_pt(N + Q)
+
+
 @op("ec.double")
 @guard
 def ec_double(d, p):
